@@ -23,9 +23,33 @@ ASSUMPTIONS = ["handlers run to completion; std retries EINTR", "child git proce
                "strace delivers the signal on entry to the chosen call of the main thread"]
 
 
+def snap(sb):
+    """the user's tree without git's own bookkeeping (hashes and timestamps differ from run to run)"""
+    return {k: v for k, v in sb.snapshot().items() if not (k == ".git" or k.startswith(".git/"))}
+
+
+def git_init(sb):
+    import subprocess as sp
+    genv = dict(core.ENV, HOME=str(sb.dir), GIT_CONFIG_GLOBAL="/dev/null", GIT_CONFIG_NOSYSTEM="1")
+    ok = True
+    for cmd in (["git", "init", "-q"], ["git", "config", "user.email", "t@example.com"], ["git", "config", "user.name", "t"],
+                ["git", "config", "commit.gpgsign", "false"], ["git", "add", "-A"], ["git", "commit", "-q", "-m", "initial"]):
+        ok = ok and sp.run(cmd, cwd=str(sb.root), env=genv, stdout=sp.DEVNULL, stderr=sp.DEVNULL).returncode == 0
+    return ok
+
+
 def prepare(tree, search, replace, what):
     sb = cli.Sandbox(tree)
     base = ["--no-auto-init", "-y"]
+    if what in ("rename_commit", "apply_commit"):
+        # inside a git repository with --commit: the commit step comes after the renames and before the history entry is written
+        if not git_init(sb):
+            sb.cleanup()
+            return None
+        if what == "rename_commit":
+            return sb, base + ["rename", search, replace, "--commit"]
+        rc, o, e = sb.run(["--no-auto-init", "plan", search, replace, "--quiet"])
+        return (sb, base + ["apply", "--commit"]) if rc == 0 else (sb.cleanup() or None)
     if what == "rename":
         return sb, base + ["rename", search, replace]
     if what == "replace":
@@ -109,15 +133,18 @@ def run(R):
     nscen = 1 if quick else 8
     for i in range(nscen):
         tree, search, replace = scenario(g, i)
-        for what in ("rename", "apply", "undo", "redo", "replace"):
+        for what in ("rename", "apply", "undo", "redo", "replace", "rename_commit", "apply_commit"):
             pr = prepare(tree, search, replace, what)
             if pr is None:
                 continue
             sb, args = pr
-            before = sb.snapshot()
+            before = snap(sb)
             hist0 = len(sb.history() or [])
-            rc, o, e, trace = inject.strace_run(sb, args)
-            done = sb.snapshot()
+            # with --commit renamify runs git: the signal is meant for renamify itself (strace counts `when=` per traced process, a
+            # followed git child would get one of its own and die), so only the main process is traced there
+            follow = not what.endswith("_commit")
+            rc, o, e, trace = inject.strace_run(sb, args, follow=follow)
+            done = snap(sb)
             hist1 = len(sb.history() or [])
             evs = inject.mutating_events(trace, sb.root, classes=("user", "state"))
             # the program's own messages: a signal that lands while the main thread is writing to the terminal meets whatever
@@ -149,8 +176,8 @@ def run(R):
                         inj = [f"{ev.sys}:signal=SIGINT:when={ev.ordinal}", f"{ev.sys}:signal=SIGTERM:when={ev.ordinal + 1}"]
                     else:
                         inj = f"{ev.sys}:signal={signame}:when={ev.ordinal}" + (f"..{ev.ordinal + 1}" if count == 2 else "")
-                    rc2, o2, e2, tr2 = inject.strace_run(sb2, args2, inject=inj)
-                    after = sb2.snapshot()
+                    rc2, o2, e2, tr2 = inject.strace_run(sb2, args2, inject=inj, follow=follow)
+                    after = snap(sb2)
                     hist2 = len(sb2.history() or [])
                     lock = (sb2.root / ".renamify" / "renamify.lock").exists()
                     sb2.cleanup()
